@@ -4,6 +4,7 @@ Open Scope N_scope.
 
 Inductive c17case :=
 | LRecv (chunks : list (list N)) (line : list N) (delivered : nat) (expect_valid : nat) (corrupted : bool)
+| LRecvLen (chunks : list (list N)) (line : list N) (delivered : nat) (raised : bool)   (* one block whose LENGTH byte was changed (raised / lowered) *)
 | LSend (blocks : list (list N)) (answers : list N) (sent : list (list N)) (result : option bool).
 
 Definition nl_eqb (a b : list N) : bool := list_eqb N.eqb a b.
@@ -12,6 +13,12 @@ Definition ob_eqb (a b : option bool) : bool := match a, b with Some x, Some y =
 Definition model_agree17 (c : c17case) : N :=
   match c with
   | LRecv chunks line delivered _ _ =>
+    let '(_, outs) := srx_chunks RIdle chunks in
+    if negb (nl_eqb (flat_map line_bytes outs) line) then 12%N
+    else if negb (length (filter (fun o => match o with Got _ => true | _ => false end) outs) =? delivered)%nat then 13%N else 0%N
+  | LRecvLen chunks line delivered raised =>
+    (* lowered: what the receiver makes of the bytes left behind the short block depends on when it is triggered again (not modelled) *)
+    if negb raised then 1%N else
     let '(_, outs) := srx_chunks RIdle chunks in
     if negb (nl_eqb (flat_map line_bytes outs) line) then 12%N
     else if negb (length (filter (fun o => match o with Got _ => true | _ => false end) outs) =? delivered)%nat then 13%N else 0%N
@@ -27,6 +34,9 @@ Definition spec_holds17 (c : c17case) : N :=
   | LRecv chunks line delivered expect_valid corrupted =>
     if corrupted then (if nl_eqb line [secsi_EOT; secsi_NAK] && (delivered =? 0)%nat then 0%N else 31%N)
     else if nl_eqb line (flat_map (fun _ => [secsi_EOT; secsi_ACK]) (seq 0 expect_valid)) && (delivered =? expect_valid)%nat then 0%N else 32%N
+  | LRecvLen chunks line delivered raised =>
+    (* 39: not answered with exactly EOT NAK (known finding C17-length-byte: no T1/T2 timers, no resynchronisation); 40: delivered *)
+    if negb (delivered =? 0)%nat then 40%N else if nl_eqb line [secsi_EOT; secsi_NAK] then 0%N else 39%N
   | LSend blocks answers sent result =>
     let acked := forallb (fun i => nth (2 * i + 1) answers 0 =? secsi_ACK) (seq 0 (length blocks)) && (2 * length blocks <=? length answers)%nat in
     match result with
